@@ -54,7 +54,7 @@ func Dev(args []string) {
 		return
 	}
 	if args[0] == "one" {
-		ctx := &core.Ctx{Property: "C02", Tier: "quick", Seed: seed, Index: n, Rng: core.CaseRng(seed, "C02", n), Stats: core.NewStats()}
+		ctx := &core.Ctx{Property: "C02", Tier: "quick", Seed: seed, Index: n, Rng: core.CaseRng(seed, "C02", n), Stats: core.NewStats(), Replay: true}
 		r := run(ctx)
 		fmt.Printf("%s monitor=%s\n%s\n", r.Verdict, r.Monitor, r.Detail)
 		return
